@@ -89,7 +89,13 @@ func TestVerifC17Negotiation(t *testing.T) {
 	perSim := vstats.EnvInt("VERIF_C17_PER_SIM", 4)
 
 	rapid.Check(t, func(t *rapid.T) {
-		c := vc17Setup(t, nil, maxSteps)
+		// Taproot channels have no negotiation (the non-opener accepts
+		// the first offer); they get a quarter of the cases.
+		types := vc17NonTaprootTypes
+		if rapid.IntRange(0, 3).Draw(t, "taprootTypes") == 0 {
+			types = vc17TaprootTypes
+		}
+		c := vc17Setup(t, types, maxSteps)
 		if c == nil {
 			st.Count("sim_aborted", 1)
 			return
@@ -103,17 +109,26 @@ func TestVerifC17Negotiation(t *testing.T) {
 	})
 }
 
+var (
+	vc17NonTaprootTypes = []string{
+		"legacy", "tweakless", "anchors", "anchors-zero-fee", "lease",
+	}
+	vc17TaprootTypes = []string{
+		"taproot", "taproot-final", "taproot-overlay",
+	}
+)
+
 // vc17DrawRatio draws the ratio hi/lo of the two ideal fees as a rational
 // num/den in [1, vc17MaxRatio].
 func vc17DrawRatio(t *rapid.T) (int64, int64) {
-	switch rapid.IntRange(0, 5).Draw(t, "ratioKind") {
+	switch rapid.IntRange(0, 7).Draw(t, "ratioKind") {
 	case 0:
 		return 1, 1
 	case 1: // within the 30% acceptance band
 		return int64(rapid.IntRange(1000, 1300).Draw(t, "ratioNear")), 1000
 	case 2: // around the band's edge
 		return int64(rapid.IntRange(1290, 1320).Draw(t, "ratioEdge")), 1000
-	case 3, 4: // needs several rounds, inside a default 3x cap
+	case 3, 4, 5: // needs several rounds, inside a default 3x cap
 		return int64(rapid.IntRange(1300, 3100).Draw(t, "ratioMid")), 1000
 	default:
 		return int64(rapid.IntRange(3000, 1000*vc17MaxRatio).Draw(t,
@@ -373,8 +388,11 @@ func vc17LegacyCase(t *rapid.T, st *vstats.Collector, c *vc17Chan, k int) {
 	}
 
 	// ---- verdict ---------------------------------------------------------
-	labels := append([]string{}, c.labels...)
-	label := func(l string) { labels = append(labels, l) }
+	var labels []string
+	label := func(l string) { labels = append(labels, "neg:"+l) }
+	for _, l := range c.labels {
+		label(l)
+	}
 	label(fmt.Sprintf("close_asked_by=%d", closeInit))
 	fin := [2]bool{
 		sides[0].cc.state == closeFinished, sides[1].cc.state == closeFinished,
@@ -416,8 +434,8 @@ func vc17LegacyCase(t *rapid.T, st *vstats.Collector, c *vc17Chan, k int) {
 			// Unaffordable ideal fee or nothing left to pay out:
 			// outside the property's domain; a refusal is fine.
 			st.Count("outside_domain", 1)
-			st.Case(fp, false, append(labels, "outside_domain_refused"),
-				nil)
+			label("outside_domain_refused")
+			st.Case(fp, false, labels, nil)
 			return
 
 		case withinCap:
